@@ -348,4 +348,4 @@ Proof.
   all: try (pose proof (ir i) as Hir; split_eqb; simpl in *; rw_pc; simpl in *; try lia; fail).
   all: try (split_eqb; simpl in *; rw_pc; simpl in *; gen; fail).
   all: match goal with H : fp _ = ?p |- ?G => idtac "PC" p "|-" G end.
-Qed.
+Show. Abort.
